@@ -697,3 +697,92 @@ func (g *Gen) shape() []string {
 		return []string{"DEL", k}
 	}
 }
+
+// bitCmd: bitmap commands on (mostly small) string values.
+func (g *Gen) bitCmd() []string {
+	k := g.key()
+	off := func() string {
+		switch g.r.IntN(12) {
+		case 0:
+			return g.pick("-1", "4294967296", "abc", "", "9223372036854775807", "1.5")
+		case 1:
+			return strconv.Itoa(64 + g.r.IntN(200))
+		}
+		return strconv.Itoa(g.r.IntN(40))
+	}
+	idx := func() string {
+		if g.chance(12) {
+			return g.pick("abc", "", "9223372036854775807", "-9223372036854775808", "1.0")
+		}
+		return strconv.Itoa(g.r.IntN(21) - 10)
+	}
+	unit := func(a []string) []string {
+		if g.chance(2) {
+			a = append(a, g.kw(g.pick("BIT", "BYTE", "BYTE")))
+		} else if g.chance(20) {
+			a = append(a, "BITS")
+		}
+		return a
+	}
+	bfType := func() string {
+		if g.chance(12) {
+			return g.pick("u64", "i65", "u0", "i0", "x8", "8", "u", "")
+		}
+		return g.pick("u8", "i8", "u4", "i5", "u16", "i16", "u1", "i1", "u32", "i32", "i64", "u63", "i3", "u7")
+	}
+	bfOff := func() string {
+		if g.chance(12) {
+			return g.pick("-1", "#-1", "abc", "#", "4294967296")
+		}
+		return g.pick("0", "1", "7", "8", "13", "#0", "#1", "#2", "30", "#5")
+	}
+	switch g.r.IntN(15) {
+	case 0, 1, 2:
+		return []string{g.name("SETBIT"), k, off(), g.pick("0", "1", "1", "1", "2", "x")[0:1]}
+	case 3:
+		return []string{g.name("GETBIT"), k, off()}
+	case 4:
+		return []string{g.name("BITCOUNT"), k}
+	case 5:
+		return unit([]string{g.name("BITCOUNT"), k, idx(), idx()})
+	case 6:
+		return []string{g.name("BITPOS"), k, g.pick("0", "1", "1", "2")}
+	case 7:
+		a := []string{g.name("BITPOS"), k, g.pick("0", "1"), idx()}
+		if g.chance(2) {
+			a = unit(append(a, idx()))
+		}
+		return a
+	case 8, 9, 10:
+		a := []string{g.name("BITFIELD"), k}
+		for i := 0; i <= g.r.IntN(3); i++ {
+			switch g.r.IntN(6) {
+			case 0, 1:
+				a = append(a, g.kw("GET"), bfType(), bfOff())
+			case 2:
+				a = append(a, g.kw("SET"), bfType(), bfOff(), g.anyInt())
+			case 3, 4:
+				a = append(a, g.kw("INCRBY"), bfType(), bfOff(), g.anyInt())
+			default:
+				// (the documented grammar: OVERFLOW is the prefix of a write operation)
+				a = append(a, g.kw("OVERFLOW"), g.kw(g.pick("WRAP", "SAT", "FAIL", "FAIL", "NOPE")), g.kw(g.pick("INCRBY", "SET")), bfType(), bfOff(), g.anyInt())
+			}
+		}
+		return a
+	case 11:
+		a := []string{g.name("BITFIELD_RO"), k, g.kw("GET"), bfType(), bfOff()}
+		if g.chance(6) {
+			a = append(a, g.kw("SET"), "u8", "0", "1")
+		}
+		return a
+	case 12:
+		op := g.pick("AND", "OR", "XOR", "NOT")
+		a := []string{g.name("BITOP"), g.kw(op), g.key(), g.key()}
+		if op != "NOT" && g.chance(2) {
+			a = append(a, g.key())
+		}
+		return a
+	default:
+		return []string{g.name("SET"), k, g.pick("\xff\xf0\x00", "\xff\xff\xff", "\x00\x00", "a", "\x80", "", "\x00\xff\x0f\x01")}
+	}
+}
